@@ -106,6 +106,27 @@ func NormalizeCustomParams(params ...any) *core.CustomParams {
 	}
 }
 
+// RefineParams normalizes the optional argument of a Refine method. A CustomParams
+// (error, abort, when, path, params) is passed on unchanged; anything else goes
+// through NormalizeParams and keeps only its error message. The result is what
+// checks.NewCustom expects as its parameter argument.
+func RefineParams(params ...any) any {
+	if len(params) > 0 {
+		switch p := params[0].(type) {
+		case core.CustomParams:
+			return p
+		case *core.CustomParams:
+			if p != nil {
+				return *p
+			}
+		}
+	}
+	if sp := NormalizeParams(params...); sp.Error != nil {
+		return sp.Error
+	}
+	return nil
+}
+
 // ApplySchemaParams sets the error map on def from params.
 // It is a no-op when params or params.Error is nil.
 func ApplySchemaParams(def *core.ZodTypeDef, params *core.SchemaParams) {
